@@ -1,7 +1,228 @@
-/- line-protocol handler for model "cgi" (stub until its model is built) -/
+/- line-protocol handler for model "cgi" (C09): see harness/inproc/h_cgi.c for the format -/
+import LtVerif.Model.Burl
+import LtVerif.Model.ProxyReq
 namespace Driver
+open LtVerif LtVerif.B
 
-def cgiLine : List String → String
+namespace CgiDrv
+
+def hexChar (n : UInt8) : Char := Char.ofNat (hexDigitLC n).toNat
+
+/-- hex rendering that stays fast on megabyte strings -/
+def fastHex (bs : Bytes) : String :=
+  if bs.isEmpty then "-" else
+  bs.foldl (fun (s : String) (b : UInt8) => (s.push (hexChar (b >>> 4))).push (hexChar (b &&& 0xf))) ""
+
+def optHex (s : String) : Option (Option Bytes) :=
+  if s = "~" then some none else (ofHex s).map some
+
+def kvList (s : String) : Option (List (Bytes × Bytes)) :=
+  if s = "-" then some [] else
+  (s.splitOn ",").mapM fun e =>
+    match e.splitOn ":" with
+    | [k, v] => match ofHex k, ofHex v with
+      | some kb, some vb => some (kb, vb)
+      | _, _ => none
+    | _ => none
+
+def field (pre : String) (tok : String) : Option String :=
+  if tok.startsWith pre then some (tok.drop pre.length).toString else none
+
+/-- pseudo-random body: x' = (x * 1103515245 + 12345) mod 2^31, byte = x' >> 16 -/
+def randBody : Nat → Nat → List UInt8 → List UInt8
+  | 0, _, acc => acc.reverse
+  | n + 1, x, acc =>
+    let x' := (x * 1103515245 + 12345) % 2147483648
+    randBody n x' ((x' / 65536 % 256).toUInt8 :: acc)
+
+def bodyOf (tok : String) : Option Bytes :=
+  if tok = "-" then some []
+  else if tok.startsWith "h" then ofHex (tok.drop 1).toString
+  else if tok.startsWith "r" then
+    match ((tok.drop 1).toString.splitOn ".").map String.toNat? with
+    | [some len, some seed] => some (randBody len (seed % 2147483648) [])
+    | _ => none
+  else none
+
+structure Parsed where
+  method : Bytes
+  version : Nat
+  targetOrig : Bytes
+  host : Option Bytes
+  bodyLen : Int
+  headers : List (Bytes × Bytes)
+
+def parseParsed : List String → Option (Except String Parsed)
+  | ["err", s] => some (.error ("err " ++ s))
+  | [m, v, to, h, l, hs] =>
+    match field "m=" m, field "v=" v, field "to=" to, field "host=" h, field "len=" l, field "hdrs=" hs with
+    | some m, some v, some to, some h, some l, some hs =>
+      match ofHex m, v.toNat?, ofHex to, optHex h, l.toInt?, kvList hs with
+      | some m, some v, some to, some h, some l, some hs =>
+        some (.ok { method := m, version := v, targetOrig := to, host := h, bodyLen := l, headers := hs })
+      | _, _, _, _, _, _ => none
+    | _, _, _, _, _, _ => none
+  | _ => none
+
+def echoParsed (toks : List String) : String := String.intercalate " " toks
+
+def envStr (env : List (Bytes × Bytes)) : String :=
+  if env.isEmpty then "-" else
+  String.intercalate "," (env.map fun (k, v) => toHex k ++ "=" ++ toHex v)
+
+def okStr (reqlen : Int) (out pending : Bytes) : String :=
+  "ok reqlen=" ++ toString reqlen ++ " in=" ++ toString out.length ++ " pend=" ++
+    toString pending.length ++ " out=" ++ fastHex out
+
+inductive Step
+  | arrive (n : Nat)
+  | complete
+
+def parseSched (s : String) : Option (List Step) :=
+  (s.splitOn ",").mapM fun t => if t = "e" then some .complete else t.toNat?.map .arrive
+
+def hasFlag (fl bit : Nat) : Bool := fl &&& bit ≠ 0
+
+/-- run a schedule over a stream state, generically -/
+def runSched {σ : Type} (arrive : σ → Bytes → σ) (complete : σ → σ) :
+    List Step → Bytes → σ → σ
+  | [], _, st => st
+  | .arrive n :: rest, body, st => runSched arrive complete rest (body.drop n) (arrive st (body.take n))
+  | .complete :: rest, body, st => runSched arrive complete rest body (complete st)
+
+def caseLine (op : String) (t : List String) (ptoks : List String) : String :=
+  match t with
+  | [po, fl, ext, docroot, strip, basedir, pinfoK, srvtok, aux, sname, raddr, rport, tag, renv, px,
+     _head, body, sched] =>
+    match po.toNat?, fl.toNat?, ofHex ext, optHex docroot, optHex strip, ofHex basedir, pinfoK.toNat?,
+          ofHex srvtok, optHex sname, ofHex raddr, rport.toNat?, optHex tag, kvList renv with
+    | some po, some fl, some ext, some docroot, some strip, some basedir, some pinfoK,
+      some srvtok, some sname, some raddr, some rport, some tag, some renv =>
+      match parseParsed ptoks, aux.splitOn ".", bodyOf body, parseSched sched with
+      | some (.error e), _, _, _ => e
+      | some (.ok p), [fam, wild, colon], some bodyBytes, some steps =>
+        let echo := echoParsed ptoks ++ " | "
+        let o : Opts := ⟨po⟩
+        let h2ext := hasFlag fl 128
+        let version := if hasFlag fl 64 || h2ext then 2 else p.version
+        let special := p.method = ofString "CONNECT" || (p.method = ofString "OPTIONS" && p.targetOrig = [42])
+        match parseTarget o special p.targetOrig with
+        | .error _ => echo ++ "model-target-reject"
+        | .ok tg =>
+          let authorizer0 := hasFlag fl 1
+          let path0 := tg.path
+          let phys0 := pathJoin basedir path0
+          -- path-info found by the filesystem walk: last K bytes
+          let (path1, pinfo1, phys1) : Bytes × Bytes × Bytes :=
+            if 0 < pinfoK ∧ pinfoK < path0.length then
+              (path0.take (path0.length - pinfoK), path0.drop (path0.length - pinfoK),
+               phys0.take (phys0.length - pinfoK))
+            else (path0, [], phys0)
+          let authority : Bytes := p.host.getD []
+          let scheme := ofString (if hasFlag fl 16 then "https" else "http")
+          let mkReq (path pinfo : Bytes) (hs : List (Bytes × Bytes)) : CgiReq :=
+            { bodyLen := p.bodyLen, query := tg.query, targetOrig := p.targetOrig, target := tg.target,
+              errSaved := hasFlag fl 32, path := path, pathinfo := pinfo, basedir := basedir,
+              physPath := phys1, h2ConnectExt := h2ext, method := p.method, version := version,
+              serverTag := tag, scheme := scheme, srvToken := srvtok,
+              srvColon := colon.toNat?.getD 0 % 256, srvInet := fam ≠ "u", srvWildcard := wild = "1",
+              localAddr := [], serverName := sname.getD authority, remoteAddr := raddr,
+              remotePort := rport, headers := hs, env := renv }
+          if op = "cgi" then
+            let env := cgiEnv {} (mkReq path1 pinfo1 p.headers)
+            echo ++ "cgi " ++ toString env.length ++ " " ++ toHex (envpEncode env)
+          else
+          -- backend selection: gw_check_extension()
+          let isProxy := op = "proxy"
+          let isScgi := op = "scgi" || op = "uwsgi"
+          let authorizer := authorizer0 && !isScgi
+          let checkLocal := hasFlag fl 8 && !isProxy
+          let m1 := gwExtMatches ext path1 path1
+          let m2 := !isProxy && gwExtMatches ext path1 phys1
+          let sel : Option (Bytes × Bytes) :=        -- (uri.path, pathinfo) when handled
+            if m1 && !checkLocal then
+              (if ext.head? = some slash && !authorizer then
+                 let (a, b) := gwPathinfoSplit ext (hasFlag fl 4) path1
+                 if b.isEmpty then some (path1, pinfo1) else some (a, b)
+               else some (path1, pinfo1))
+            else if m2 then some (path1, pinfo1)
+            else none
+          match sel with
+          | none => echo ++ "nomatch"
+          | some (path2, pinfo2) =>
+            let upgradeOk := hasFlag fl 256
+            if h2ext && !upgradeOk && !authorizer then echo ++ "st=405" else
+            let (hs2, upgrade) := gwUpgradeHeaders h2ext authorizer upgradeOk version p.bodyLen p.headers
+            let req := mkReq path2 pinfo2 hs2
+            let copts : CgiOpts :=
+              { authorizer := authorizer, breakScriptFilenameForPhp := hasFlag fl 2,
+                docroot := docroot, stripRequestUri := strip }
+            if op = "env" then echo ++ "env " ++ envStr (cgiEnv copts req) ++ " rc=0"
+            else
+            -- body schedule: first entry is queued when create_env runs
+            let (seg0, steps1, body1) : Bytes × List Step × Bytes :=
+              match steps with
+              | .arrive n :: rest => (bodyBytes.take n, rest, bodyBytes.drop n)
+              | other => ([], other, bodyBytes)
+            if op = "fcgi" then
+              let role := if authorizer then Extracted.gwAuthorizer else Extracted.gwResponder
+              match Fcgi.createEnv role upgrade (cgiEnv copts req) p.bodyLen seg0 with
+              | none => echo ++ "st=400"
+              | some st =>
+                let st1 := runSched (Fcgi.arrive authorizer upgrade) (Fcgi.complete authorizer upgrade)
+                             steps1 body1 st
+                let st2 := Fcgi.flush authorizer upgrade (st1.pending.length + 1) st1
+                echo ++ okStr st2.reqlen st2.out st2.pending
+            else if isScgi then
+              let sopts : CgiOpts := { docroot := docroot }
+              let env := cgiEnv sopts req
+              let res : Uwsgi.Res :=
+                if op = "scgi" then .ok (Scgi.createEnv env p.bodyLen seg0)
+                else Uwsgi.createEnv env p.bodyLen seg0
+              match res with
+              | .status c => echo ++ "st=" ++ toString c
+              | .ok st =>
+                let st1 := runSched RawSt.arrive RawSt.complete steps1 body1 st
+                let st2 := st1.moveAll
+                echo ++ okStr st2.reqlen st2.out st2.pending
+            else if isProxy then
+              match px.splitOn "." with
+              | fwd :: rh =>
+                let rhost : Option Bytes := match rh with
+                  | [h] => (optHex h).getD none
+                  | _ => none
+                let cfg : Proxy.Cfg :=
+                  { forceHttp10 := hasFlag fl 2048, replaceHost := rhost, forwarded := fwd.toNat?.getD 0,
+                    authorizer := authorizer, streaming := hasFlag fl 1024 }
+                let preq : Proxy.Req :=
+                  { method := p.method,
+                    isGetOrHead := p.method = ofString "GET" || p.method = ofString "HEAD",
+                    target := tg.target, h2ConnectExt := h2ext, version := version, host := p.host,
+                    bodyLen := p.bodyLen, scheme := scheme, isSsl := hasFlag fl 16, remoteAddr := raddr,
+                    remoteUser := (renv.find? fun (k, v) => eqIcase k (ofString "REMOTE_USER") && !v.isEmpty).map (·.2),
+                    headers := hs2 }
+                match Proxy.createEnv cfg preq seg0 with
+                | .status c => echo ++ "st=" ++ toString c
+                | .ok st chunked =>
+                  let st1 := runSched (Proxy.arrive cfg chunked) (Proxy.complete chunked) steps1 body1 st
+                  let st2 := if st1.pending.isEmpty ∨ cfg.authorizer then st1
+                             else if chunked then Proxy.stdinAppend st1 else st1.moveAll
+                  echo ++ okStr st2.reqlen st2.out st2.pending
+              | _ => "bad-op"
+            else "bad-op"
+      | _, _, _, _ => "bad-op"
+    | _, _, _, _, _, _, _, _, _, _, _, _, _ => "bad-op"
+  | _ => "bad-op"
+
+end CgiDrv
+
+def cgiLine (toks : List String) : String :=
+  match toks with
+  | op :: rest =>
+    -- split at the "P" marker: everything after it is the parsed request
+    let pre := rest.takeWhile (· ≠ "P")
+    let post := (rest.dropWhile (· ≠ "P")).drop 1
+    CgiDrv.caseLine op pre post
   | _ => "bad-op"
 
 end Driver
